@@ -25,7 +25,8 @@ TECHNIQUE = 'bounded exhaustive enumeration of programs x build routes x type hi
 RULE = ('programs: specials (empty script, no equations, verbatim-only, multi-line, comments), S1 term shapes over 6 names, extras, S4 systems (6 quick / 12 thorough RHS); '
         '3 routes x 2 type-hint settings x 4 converters with default options, 4 converters that return empty or comment-only strings, and 3 routes x lags,leads in {None,0,2} x min_lags,min_leads in {0,1}. '
         'non-trivial = accepted program with at least one symbol'
-        ' Converters: one whose output the compiler warns about, one whose output is not Python (first / every equation); explicit lengths as NumPy integers.')
+        ' Converters: one whose output the compiler warns about, one whose output is not Python (first / every equation); explicit lengths as NumPy integers.'
+        ' Converter output with its own indentation and with a whitespace-only line inside a string literal is found unchanged (beyond a uniform indent); a converter that refuses a symbol by raising stops both build routes.')
 ASSUMPTIONS = [
     'the exec namespace provides BaseModel and the typing names the typed template annotates with (List, Optional, Any)',
     'evaluation is compared at a period in the middle of a 9-period span (offsets up to 3 either way)',
@@ -155,6 +156,24 @@ def run_case(case):
                 out.append(('broken-converter:class-returned', 'an exception (the text does not execute)', 'a class: CODE %s the text' % ('==' if getattr(M, 'CODE', None) == text else '!='),
                             'build_model returned a class although the definition with this converter\'s output does not execute (%s equation)' % which))
                 break
+    # 0b. a converter that itself raises (it validates its input and refuses a symbol): neither way of building returns anything
+    if carriers0 and not out:
+        for exc_cls in (SyntaxError, ValueError, KeyError):
+            def refusing(x, exc_cls=exc_cls):
+                if x is carriers0[-1]:
+                    raise exc_cls('the converter refuses this symbol')
+                return x.code
+            got = []
+            for fn in (fsic.build_model_definition, fsic.build_model):
+                try:
+                    fn(symbols, converter=refusing)
+                    got.append('returned')
+                except Exception as e:
+                    got.append(type(e).__name__)
+            if 'returned' in got:
+                # (which exception class each of the two raises is not fixed by the statement: only that neither hands back a model)
+                out.append(('raising-converter:%s' % exc_cls.__name__, 'both fail', got, 'a converter that refuses a symbol by raising did not stop build_model_definition / build_model'))
+                break
     # 1. routes x type hints x converters, default options
     for cname, conv in CONVERTERS.items():
         if cname == 'guard' and any(s.code and '=' not in s.code for s in symbols if s.type.name == 'ENDOGENOUS'):
@@ -214,6 +233,34 @@ def run_case(case):
         at = found + len(want)
     if text.count('# MARK<') != len(carriers):
         out.append(('converter-count', len(carriers), text.count('# MARK<'), 'converter must run once per symbol that carries an equation'))
+    # ... verbatim also means: indentation the converter's output has of its own is kept (every line further in by the same amount),
+    # and a line of a multi-line string literal that holds only blanks stays as it is
+    if carriers and not out:
+        base_indent = indent
+
+        def indented_converter(x):
+            return '\n'.join('    ' + w for w in marker_converter(x).split('\n'))
+
+        def literal_converter(x):
+            return marker_converter(x) + "\n_note = '''first\n   \n  third'''"
+        for cname, conv in (('own-indentation', indented_converter), ('blank-line-in-literal', literal_converter)):
+            try:
+                text_i = fsic.build_model_definition(symbols, converter=conv)
+            except Exception as e:
+                out.append(('converter-verbatim:%s:%s' % (cname, type(e).__name__), 'the text', repr(e)[:120], 'build_model_definition judged the converter output'))
+                break
+            pos = 0
+            for x in carriers:
+                want_lines = conv(x).split('\n')
+                block = '\n'.join((base_indent + w) if w.strip() else w for w in want_lines)
+                block_all = '\n'.join(base_indent + w for w in want_lines)
+                hit = max(text_i.find(block, pos), text_i.find(block_all, pos))
+                if hit < 0:
+                    out.append(('converter-verbatim:%s' % cname, want_lines[:4], 'not found with its own indentation / blank lines intact', 'converter output is altered on insertion (beyond a uniform indent)'))
+                    break
+                pos = hit + 1
+            if out:
+                break
     # 2a. ... and nothing but the converter's output: a converter may return an empty string (the statement contributes no code),
     #      a falsy or whitespace-only string, or a bare comment. The evaluation body is then exactly the non-empty outputs.
     for cname, conv in (('empty-for-first', lambda x: '' if (carriers and x is carriers[0]) else marker_converter(x)),
